@@ -328,7 +328,7 @@ func genC12(ctx *Ctx) error {
 }
 
 func c12Body(ctx *Ctx, rows *c12Rows) error {
-	ctx.Res.Rule = "CORR of encoding/json and of runtime.MarshalForm/BindForm with the Lean models; a document with every request media class (JSON, +json, form with a component and with an inline schema, text, raw, multipart; required and optional bodies; one and several per operation), path and query parameters, and every response shape (fixed code, range, default; JSON, vendor JSON, text, binary, wildcard; with and without headers; component response; no content) generated in strict mode for 7 frameworks and compiled; every request is sent and the request object received by the recording handler compared with what was sent; every declared response object is returned in turn with marker values and the status, Content-Type, headers and body on the wire compared with the declaration; handler error and foreign response type go to the error path; non-trivial = every (framework, operation, request or response) cell"
+	ctx.Res.Rule = "CORR of encoding/json and of runtime.MarshalForm/BindForm with the Lean models; a document with every request media class (JSON, +json, form with a component and with an inline schema, text, raw, multipart; required and optional bodies; one and several per operation), path and query parameters, and every response shape (fixed code, range, default; JSON, vendor JSON, text, binary, wildcard; with and without headers; component response; no content) generated in strict mode for 7 frameworks and compiled; every request is sent and the request object received by the recording handler compared with what was sent; every declared response object is returned in turn with marker values and the status, Content-Type, headers and body on the wire compared with the declaration; handler error and foreign response type go to the error path; non-trivial = every (framework, operation, request or response) cell Session 9: CORR of GenerateBodyDefinitions (Model/Bodies.lean) and of the component-response choice of GenerateResponseDefinitions (Model/RespDefs.lean); TRANS Gen/MediaSwitch.lean; number response headers (float32, double) with an inexact marker value."
 	kit, err := NewRunKit(ctx.Work)
 	if err != nil {
 		return err
